@@ -111,7 +111,7 @@ class Gen:
         return effs
 
     def mk_map(self):
-        ar = self.rng.choice([1, 1, 1, 2, 2, 3, 4, 6])
+        ar = self.rng.choice([1, 1, 5, 2, 2, 3, 4, 6])   # arity 5 was never generated (found by tools/coverage.py)
         effs = self.rand_effects() if self.profile == "varw" and self.rng.random() < 0.45 else None
         f = self.new_fn(ar, effs)
         args = [self.pick() for _ in range(ar)]
@@ -669,6 +669,43 @@ class Gen:
         self.act("stabilise")
         self.count("motif_expert_invalid_dep")
 
+    def motif_dependon_reobserve(self):
+        """`a.depend_on(b)` below a map, observed, unobserved while `a` (kept necessary by its own observer) changes and is
+        recomputed, then observed again: the depend_on node is re-linked with stamps that have drifted apart
+        (seeded change c01-dependon-cutoff-by-recomputed-at)"""
+        self.mk_var(); a = len(self.nodes) - 1
+        self.mk_var(); b = len(self.nodes) - 1
+        va, vb = self.nodes[a]["var"], self.nodes[b]["var"]
+        self.act(f"observe n{a}")
+        self.obs.append({"node": a, "clones": 1, "dis": False})
+        self.act(f"dependon n{a} n{b}")
+        d = self.add_node("dependon")
+        f = self.new_fn(1, m=7)
+        self.act(f"map f{f} n{d}")
+        m = self.add_node("map")
+        x = self.rng.randint(0, 4)
+        for _ in range(self.rng.randint(1, 2)):
+            self.act(f"observe n{m}")
+            self.obs.append({"node": m, "clones": 1, "dis": False})
+            om = len(self.obs) - 1
+            self.act("stabilise")
+            if self.rng.random() < 0.5:
+                x = (x + self.rng.randint(1, 3)) % 5
+                self.act(f"set v{va} {x}")
+                self.act("stabilise")
+            self.act(f"disallow o{om}"); self.obs[om]["dis"] = True
+            self.act("stabilise")
+            for _ in range(self.rng.randint(1, 2)):
+                x = (x + self.rng.randint(1, 3)) % 5
+                self.act(f"set v{va} {x}")
+                if self.rng.random() < 0.3:
+                    self.act(f"set v{vb} {self.rng.randint(0, 4)}")
+                self.act("stabilise")
+        self.act(f"observe n{m}")
+        self.obs.append({"node": m, "clones": 1, "dis": False})
+        self.act("stabilise")
+        self.count("motif_dependon_reobserve")
+
     def motif_cutoff_reobserve(self):
         """a chain whose tail is often cut off (function with many collisions), observed, unobserved and
         observed again with and without writes in between"""
@@ -857,6 +894,8 @@ class Gen:
                 self.motif_heights()
             elif r < 0.5 and self.profile != "static":
                 self.motif_shared()
+            elif r < 0.56 and (self.profile != "static" or r < 0.15):
+                self.motif_dependon_reobserve()
             elif r < 0.7:
                 self.motif_mapref()
             elif r < 0.85:
